@@ -2,6 +2,9 @@ use crate::{Ctx, Out};
 
 pub mod c01;
 pub mod c02;
+pub mod c04;
+pub mod c13;
+pub mod c16;
 pub mod c17;
 pub mod c18;
 pub mod c18_impls;
@@ -10,10 +13,18 @@ pub mod c25;
 pub mod c26;
 pub mod c27;
 
+/// properties whose harness run is split over child processes (see main.rs `run_sharded`)
+pub fn sharded(prop: &str) -> bool {
+    matches!(prop, "C04" | "C13")
+}
+
 pub fn run(ctx: &Ctx, out: &mut Out) -> bool {
     match ctx.prop.as_str() {
         "C01" => c01::run(ctx, out),
         "C02" => c02::run(ctx, out),
+        "C16" => c16::run(ctx, out),
+        "C04" => c04::run(ctx, out),
+        "C13" => c13::run(ctx, out),
         "C17" => c17::run(ctx, out),
         "C18" => c18::run(ctx, out),
         "C19" => c19::run(ctx, out),
